@@ -567,6 +567,11 @@ func (g *gen) runCase(c cfg, o slip.Object, viaLisp bool) (term string, d caseDe
 			}
 			gread = "(Some [" + strings.Join(items, "; ") + "])"
 			d.Read = quoteASCII(strings.Join(shown, " ")) + fmt.Sprintf(" (%d object(s))", len(code))
+			if len(code) == 1 {
+				if diff := g.floatsPreserved(o, code[0]); diff != "" {
+					g.ctx.Violate("a float read back in its own format is a different number: "+diff, d, d.Read, nil)
+				}
+			}
 			if viaLisp && len(code) == 1 {
 				// read-from-string must agree with Read on the first object
 				scope := slip.NewScope()
@@ -582,6 +587,50 @@ func (g *gen) runCase(c cfg, o slip.Object, viaLisp bool) (term string, d caseDe
 	}
 	term = fmt.Sprintf("(Case %s %s %s %s)", c.gallina(), canon(p, o), gtext, gread)
 	return
+}
+
+// floatsPreserved walks the object printed and the object read back in parallel; where both hold a float of
+// the same format the values must be the same number (strconv / big.Float round trip, checked on the
+// implementation only: floats are opaque in the Coq model). Returns a description of the first difference.
+func (g *gen) floatsPreserved(a, b slip.Object) string {
+	switch ta := a.(type) {
+	case slip.DoubleFloat:
+		if tb, ok := b.(slip.DoubleFloat); ok && ta != tb {
+			return fmt.Sprintf("double-float %v read back as %v", float64(ta), float64(tb))
+		}
+	case slip.SingleFloat:
+		if tb, ok := b.(slip.SingleFloat); ok && ta != tb {
+			return fmt.Sprintf("single-float %v read back as %v", float32(ta), float32(tb))
+		}
+	case *slip.LongFloat:
+		// Known finding C03-long-float-reread: the reader derives the precision of a long float from the number
+		// of digits of the token ("1L+21" is read with 3 bits), so the shortest text the printer emits is read as
+		// a different number. Long floats are therefore only counted here, not judged.
+		if tb, ok := b.(*slip.LongFloat); ok && (*big.Float)(ta).Cmp((*big.Float)(tb)) != 0 {
+			g.ctx.Hist("long-float:reread-as-a-different-number")
+		}
+	case slip.List:
+		if tb, ok := b.(slip.List); ok && len(ta) == len(tb) {
+			for i := range ta {
+				if d := g.floatsPreserved(ta[i], tb[i]); d != "" {
+					return d
+				}
+			}
+		}
+	case slip.Tail:
+		if tb, ok := b.(slip.Tail); ok {
+			return g.floatsPreserved(ta.Value, tb.Value)
+		}
+	case *slip.Vector:
+		if tb, ok := b.(*slip.Vector); ok {
+			return g.floatsPreserved(ta.AsList(), tb.AsList())
+		}
+	case *slip.Array:
+		if tb, ok := b.(*slip.Array); ok {
+			return g.floatsPreserved(ta.AsList(), tb.AsList())
+		}
+	}
+	return ""
 }
 
 func firstValue(o slip.Object) slip.Object {
